@@ -9,9 +9,9 @@ res=""
 ( cd "$wt" && git apply "$d/patch.diff" ) || { echo "APPLY-FAILED"; git -C /repo worktree remove --force "$wt"; exit 3; }
 if (cd "$wt/pkg/go" && go build ./... && go test -vet=off -count=1 ./... >/tmp/$$.suite 2>&1); then res="suite=pass"; else res="suite=FAIL"; fi
 cp "$d/demo_test.go" "$wt/pkg/go/$pkg/zz_seed_demo_test.go"
-if (cd "$wt/pkg/go" && go test -vet=off -count=1 -run 'Seed|Demo|C[0-9][0-9]M' ./$pkg/ >/tmp/$$.demo1 2>&1); then res="$res demo_with_change=PASS(bad)"; else res="$res demo_with_change=fail"; fi
+if (cd "$wt/pkg/go" && go test -vet=off -count=1 -run 'Seed|Demo|C[0-9][0-9](R2)?M' ./$pkg/ >/tmp/$$.demo1 2>&1); then res="$res demo_with_change=PASS(bad)"; else res="$res demo_with_change=fail"; fi
 ( cd "$wt" && git apply -R "$d/patch.diff" )
-if (cd "$wt/pkg/go" && go test -vet=off -count=1 -run 'Seed|Demo|C[0-9][0-9]M' ./$pkg/ >/tmp/$$.demo2 2>&1); then res="$res demo_clean=pass"; else res="$res demo_clean=FAIL(bad)"; fi
+if (cd "$wt/pkg/go" && go test -vet=off -count=1 -run 'Seed|Demo|C[0-9][0-9](R2)?M' ./$pkg/ >/tmp/$$.demo2 2>&1); then res="$res demo_clean=pass"; else res="$res demo_clean=FAIL(bad)"; fi
 echo "$d: $res"
 rm -f /tmp/$$.suite /tmp/$$.demo1 /tmp/$$.demo2
 git -C /repo worktree remove --force "$wt"
